@@ -14,6 +14,8 @@ convention: LINEBASES/LINEWIDTH are those of the first line).
 Core Lean only (the model driver links this file: the harness compares `render`/`entries` with its own
 generator).
 -/
+set_option linter.unusedVariables false
+set_option linter.unusedSimpArgs false
 namespace Hts.Spec.Fasta
 
 abbrev Bytes := List UInt8
